@@ -164,12 +164,12 @@ def MAXIFS(sum_args, *criteria):
     if len(criteria) % 2 != 0:
         return error.ERROR
     range_and_preds = list(zip(criteria[::2], (utils.parse_criteria(criterion) for criterion in criteria[1::2])))
-    b = 0
+    b = None
     for i, a in enumerate(sum_args):
         if all(pred(criteria_range[i]) for criteria_range,pred in range_and_preds):
-            if a > b: 
+            if b is None or a > b:
                 b = a
-    return b
+    return 0 if b is None else b
 
 
 @dispatcher.register_for('SLOPE')
